@@ -14,6 +14,8 @@ def tagged_to_plain(t):
     """driver encoding -> plain python JSON (key order kept by dict insertion order)"""
     if t is None or isinstance(t, (bool, str)):
         return t
+    if "s" in t:
+        return t["s"]
     if "i" in t:
         return int(t["i"])
     if "f" in t:
